@@ -186,6 +186,7 @@ class Text(JupyterMixin):
                 offset += len(self.plain)
             text = Text(
                 character,
+                style=self.style,
                 spans=[
                     _Span(0, 1, style)
                     for start, end, style in self._spans
